@@ -220,7 +220,11 @@ pair1_pipe_stop(void *arg)
 		}
 		if (s->wr_ready) {
 			s->wr_ready = false;
-			nni_pollable_clear(&s->writable);
+			// Without a peer we can still accept messages
+			// while the send buffer has room.
+			if (nni_lmq_full(&s->wmq)) {
+				nni_pollable_clear(&s->writable);
+			}
 		}
 		if (nni_lmq_empty(&s->rmq)) {
 			nni_pollable_clear(&s->readable);
